@@ -356,6 +356,41 @@ theorem c38_latest (y : Reg) (id now : Nat) :
             subst h
             exact absurd hs.1 (by simp)
 
+/-- **Arbitrary stored lists** (no invariant, e.g. a registry restored from persistence, or the clock
+    stepping back after an add): whatever bundles a member's lists contain — valid, expired, not yet
+    valid, in any order — a bundle returned by either query is inside its lifetime *now*
+    (`not_before < now < not_after`), and the long-term one has the largest `not_after` among the
+    stored bundles that are inside their lifetime now; the public `latest_key_bundle` on any list does
+    the same. (Signatures of a restored list are not re-checked by the query path: `c38_get_sound`
+    needs `SigInv` for that part.) -/
+theorem c38_get_lifetime_any (y : Reg) (id now : Nat) (l : List Bundle) (b : Bundle) :
+    (y.keyBundleLongterm id now = .ok (some b) →
+        b.nb < now ∧ now < b.na ∧ ∃ l', y.longterm id = some l' ∧ b ∈ l'
+          ∧ ∀ c ∈ l', c.nb < now → now < c.na → c.na ≤ b.na)
+    ∧ ((y.keyBundleOnetime id now).2 = some b → b.nb < now ∧ now < b.na)
+    ∧ (latest l now = some b → b ∈ l ∧ b.nb < now ∧ now < b.na
+          ∧ ∀ c ∈ l, c.nb < now → now < c.na → c.na ≤ b.na) := by
+  have lt : ∀ c : Bundle, lifetimeOk c now = true ↔ (c.nb < now ∧ now < c.na) := by
+    intro c; unfold lifetimeOk; simp
+  refine ⟨?_, ?_, ?_⟩
+  · intro h
+    obtain ⟨l', h1, h2, h3, h4⟩ := (c38_latest y id now).1 b h
+    have := (lt b).1 h3
+    exact ⟨this.1, this.2, l', h1, h2, fun c hc a1 a2 => h4 c hc ((lt c).2 ⟨a1, a2⟩)⟩
+  · intro h
+    cases hl : y.onetime id with
+    | none => simp [Reg.keyBundleOnetime, hl] at h
+    | some l0 =>
+      have hs := c38_onetime_pop y id now l0 hl
+      rw [h] at hs
+      obtain ⟨_, _, _, hok, _, _⟩ := hs
+      exact (lt b).1 hok
+  · intro h
+    have hs := latest_spec l now
+    rw [h] at hs
+    have := (lt b).1 hs.2.1
+    exact ⟨hs.1, this.1, this.2, fun c hc a1 a2 => hs.2.2 c hc ((lt c).2 ⟨a1, a2⟩)⟩
+
 /-! ## Reachable registries -/
 
 theorem sigInv_init : SigInv Reg.init := by
